@@ -107,13 +107,16 @@ def graph_and_records(draw, canonical, max_records, min_records=1, tags=True, ma
                       real=False, real_with_seq=False):
     if real:
         g = draw(gen_graph.any_graph(tier, max_chroms=max_chroms, max_elements=max_elements, real_with_seq=real_with_seq,
-                                     max_window=8 if real_with_seq else 30))
+                                     max_window=8 if real_with_seq else 30, cycles=True))
     else:
-        g = draw(gen_graph.rgfa(max_chroms=max_chroms, max_elements=max_elements))
+        g = draw(gen_graph.rgfa(max_chroms=max_chroms, max_elements=max_elements, cycles=True))
     lm = models.LinkModel(g["links"])
     n = draw(st.integers(min_records, max_records))
+    closed = gen_gaf.revisit_walks(g, lm) if (len(g["nodes"]) <= 60 and draw(st.booleans())) else []
     recs = []
     for i in range(n):
+        # hairpins and back links: walks that turn around (same contig, opposite orientation, abutting intervals)
+        prefix = draw(st.sampled_from(closed)) if (closed and draw(st.integers(0, 3)) == 0) else None
         recs.append(draw(gen_gaf.record(g, lm, canonical=canonical, name="rd%d" % i, tags=tags,
-                                        with_cigar=draw(st.integers(0, 9)) > 0)))
+                                        with_cigar=draw(st.integers(0, 9)) > 0, prefix=prefix, max_len=4 if prefix else 8)))
     return g, recs
